@@ -22,9 +22,10 @@ class QResult:
     self.live_spy = []
     self.live_trace = []
     self.instrumented = None
+    self.nqueries = 0
 
 
-def run(spec, start, ext_ops, cfg, pre_start_ops=(), max_steps=400):
+def run(spec, start, ext_ops, cfg, pre_start_ops=(), max_steps=400, query_rng=None):
   res = QResult()
   run_ = cg.Run(spec, spied=cfg.get('spied', True))
   res.run = run_
@@ -101,8 +102,26 @@ def run(spec, start, ext_ops, cfg, pre_start_ops=(), max_steps=400):
         n += 1
         if n > max_steps:
           raise Inconclusive('queue does not drain within %d steps' % max_steps)
+    def queries():
+      """read-only queries between steps (is_in / child_state on random states); they must change nothing"""
+      if query_rng is None or query_rng.random() > 0.35:
+        return
+      for _ in range(query_rng.randint(1, 3)):
+        x = run_.fns[query_rng.randrange(spec['n'])]
+        try:
+          if query_rng.random() < 0.5:
+            chart.is_in(x)
+          else:
+            chart.child_state(x)
+        except cg.Budget:
+          raise
+        except Exception:
+          pass          # child_state of a state that is not on the active path fails by contract
+        res.nqueries += 1
+      run_.reset_logs()
     try:
       drain()
+      queries()
       for kind, sig in ext_ops:
         ev = Event(signal=sig)
         if kind == 'fifo':
@@ -121,6 +140,7 @@ def run(spec, start, ext_ops, cfg, pre_start_ops=(), max_steps=400):
             raise chart._vt_exc
         else:
           drain()
+        queries()
     except cg.Budget:
       res.error = ('Budget', len(res.steps))
       return res
